@@ -275,8 +275,51 @@ def dynapply_ob(r, B):
                         ["jinns.loss._loss_utils:dynamic_loss_apply"])
 
 
+def user_return_ob(form):
+    """_check_user_func_return: whatever documented form the user's function returns (python number, 0-d array, grid
+    values with or without the trailing component axis), the value subtracted from the network's grid values is the
+    user's value at that grid point"""
+    from jinns.utils._utils import _check_user_func_return
+    shape = (2, 3, 1)
+    def build():
+        if form in ("python_float", "python_int"):
+            const = 2.5 if form == "python_float" else 3
+            def fn(v):
+                return _check_user_func_return(const, shape) + jnp.zeros(shape) + 0.0 * v
+            def spec(v, wrong=False):
+                return arr(lambda i: c(const if not wrong else const + 1), shape)
+            inputs = [Inp("v", ())]
+        elif form == "zero_d":
+            def fn(v):
+                return _check_user_func_return(v, shape) + jnp.zeros(shape)
+            def spec(v, wrong=False):
+                return arr(lambda i: v[()] * (2 if wrong else 1), shape)
+            inputs = [Inp("v", ())]
+        elif form == "zero_d_integer":
+            def fn(v):
+                return _check_user_func_return(v, shape) + jnp.zeros(shape)
+            def spec(v, wrong=False):
+                return arr(lambda i: v[()] * (2 if wrong else 1), shape)
+            inputs = [Inp("v", (), "int")]
+        elif form == "trailing_axis":
+            def fn(v):
+                return _check_user_func_return(v, shape) + jnp.zeros(shape)
+            def spec(v, wrong=False):
+                return arr(lambda i: v[i] if not wrong else v[i[0], (i[1] + 1) % 3, 0], shape)
+            inputs = [Inp("v", shape)]
+        else:                                   # the grid values without the trailing component axis
+            def fn(v):
+                return _check_user_func_return(v, shape) + jnp.zeros(shape)
+            def spec(v, wrong=False):
+                return arr(lambda i: v[i[0], i[1]] if not wrong else v[i[0], (i[1] + 1) % 3], shape)
+            inputs = [Inp("v", shape[:-1])]
+        return dict(fn=fn, spec=spec, canary=lambda *z: spec(*z, wrong=True), inputs=inputs)
+    return EqObligation(f"C11/_check_user_func_return/ensures.value_at_grid_point[user_function_returns={form}]", build,
+                        ["jinns.utils._utils:_check_user_func_return"])
+
+
 def obligations(tier):
-    obs = []
+    obs = [user_return_ob(f) for f in ("python_float", "python_int", "zero_d", "zero_d_integer", "trailing_axis", "no_trailing_axis")]
     rB = [(1, 2), (2, 1)] if tier == "quick" else [(1, 1), (1, 2), (2, 1), (2, 2)]
     for time in (False, True):
         for dx in (1, 2, 3):
